@@ -364,6 +364,17 @@ def main():
                 raise Bad("strprinter.cpp: bvisit(%s) not recognised: %s" % (cls, body))
         if len(set(relp)) != 1:
             raise Bad("strprinter.cpp: relational printers differ in parenthesization")
+        # Precedence of Infty: the default (Atom) unless there is a visitor for it
+        mm = re.search(r"void Precedence::bvisit\(const Infty &x\)\s*\{(.*?)\n\}", sp, re.S)
+        if mm is None:
+            infty_by_sign = False
+        else:
+            body = " ".join(mm.group(1).split())
+            want = ("if (x.is_negative_infinity()) { precedence = PrecedenceEnum::Mul; } else { "
+                    "precedence = PrecedenceEnum::Atom; }")
+            if body != want:
+                raise Bad("strprinter.cpp: Precedence::bvisit(const Infty &) not recognised: " + body)
+            infty_by_sign = True
         ph = read("symengine/printers/strprinter.h")
         m = re.search(r"enum class PrecedenceEnum \{([^}]*)\}", ph)
         if not m:
@@ -445,6 +456,9 @@ def main():
     out.append("")
     out.append("(* do the relational printers parenthesize operands of precedence <= Relational? *)")
     out.append("Definition relational_operands_parenthesized : bool := %s." % ("true" if relp[0] else "false"))
+    out.append("")
+    out.append("(* is there a Precedence visitor for Infty giving a negative infinity the precedence Mul? *)")
+    out.append("Definition infty_precedence_by_sign : bool := %s." % ("true" if infty_by_sign else "false"))
     write_if_changed(os.path.join(OUTDIR, "Gen_Names.v"), "\n".join(out) + "\n")
     return 0
 
